@@ -18,6 +18,8 @@ pub struct Event {
     pub path: String,
     pub path2: String,
     pub len: usize,
+    #[serde(default)]
+    pub fd: i32,
     pub action: Action,
     /// result of the real call (patched in when the actor next yields or finishes);
     /// for a crash-after / crash-inside decision this is what the kernel returned, not
@@ -342,6 +344,7 @@ pub fn run<P: Policy>(
                 names.norm(&op.path2)
             },
             len: op.len,
+            fd: op.fd,
             action: d.action,
             ret: 0,
             errno: 0,
